@@ -219,6 +219,8 @@ class Interp:
             return e["v"]
         if k == "unit":
             return UNITV
+        if k == "paren":
+            return self.expr(e["e"], scopes)
         if k == "var":
             return self.lookup(scopes, e["name"])
         if k == "bin":
